@@ -132,7 +132,12 @@ func equal(v1, v2 reflect.Value, ulp uint) bool {
 				return false
 			}
 			for i := 0; i < f1.Len(); i++ {
-				if !scalar.EqualWithinULP(f1.Index(i).Float(), f2.Index(i).Float(), ulp) {
+				fv1 := f1.Index(i).Float()
+				fv2 := f2.Index(i).Float()
+				if math.IsNaN(fv1) != math.IsNaN(fv2) {
+					return false
+				}
+				if !math.IsNaN(fv1) && !scalar.EqualWithinULP(fv1, fv2, ulp) {
 					return false
 				}
 			}
